@@ -115,6 +115,8 @@ class ExprMixin:
         if name in mod.imports:
             target = mod.imports[name]
             return self.resolve_qualified(st, target, missing_ok)
+        if mod.name + '.' + name in self.index.modules:
+            return ModuleV(mod.name + '.' + name)
         if missing_ok:
             return None
         raise Unsupported(f'module {mod.name} has no attribute {name}')
@@ -337,7 +339,11 @@ class ExprMixin:
         groups = {}
         for c in cands:
             res = self.resolve_inst_attr(c, name)
+            if res == ('absent',) and v.cls is None:
+                res = ('heap', None)
             groups.setdefault(res, []).append(c)
+        if v.cls is None and ('heap', None) in groups and len(groups) > 1:
+            self.assumptions_used.add('attribute reads on objects of statically unknown class: AttributeError is not modelled (the attribute is read from the heap)')
         if len(groups) == 1:
             (res, cs), = groups.items()
             return outs + self.getattr_resolved(st, v, name, res, node)
